@@ -65,7 +65,9 @@ fn main() {
         }
         i += 2;
     }
-    let gs = groups_for(&prop);
+    let mut gs = groups_for(&prop);
+    // translator differential (rs2lean): the functions translated for this property, real Rust vs generated Lean
+    gs.extend(props::fn_gen::groups(&prop));
     if gs.is_empty() {
         eprintln!("no harness group for property {}", prop);
         std::process::exit(2);
